@@ -19,6 +19,7 @@ type Job struct {
 	When   time.Time
 	Weight float64
 	Hosts  []string
+	Waits  []time.Duration
 }
 
 // TagSet is a named set type.
@@ -56,7 +57,7 @@ var staticWords = map[string][]string{
 	"EcFirst": {"ec", "first"}, "EcSecond": {"ec", "second"}, "EcInner": {"ec", "inner"}, "Deep": {"deep"}, "Tag": {"tag"},
 	"EtPort": {"et", "port"}, "EtName": {"et", "name"}, "EtEvery": {"et", "every"},
 	"EdFlag": {"ed", "flag"}, "EdInner": {"ed", "inner"}, "Level": {"level"}, "Set": {"set"},
-	"Name": {"name"}, "Every": {"every"}, "Tags": {"tags"}, "When": {"when"}, "Weight": {"weight"}, "Hosts": {"hosts"},
+	"Name": {"name"}, "Every": {"every"}, "Tags": {"tags"}, "When": {"when"}, "Weight": {"weight"}, "Hosts": {"hosts"}, "Waits": {"waits"},
 	"X": {"x"}, "Y": {"y"}, "Vals": {"vals"}, "M": {"m"}, "P": {"p"},
 }
 
